@@ -2345,7 +2345,7 @@ pub enum DatabaseDescriptor {
 }
 
 #[cfg(raindb_verif)]
-mod verif_hooks;
+pub mod verif_hooks;
 
 #[cfg(test)]
 mod db_test;
